@@ -84,7 +84,12 @@ func (v *Vue) interpolateToWriter(ctx VueContext, w io.Writer, input string) err
 			var ok bool
 			val, ok = ctx.stack.Resolve(expr)
 			if !ok {
+				// Not a path into the data: it may still be an expression without spaced
+				// operators (a literal, !flag, n>3), as accepted by v-if
 				val = nil
+				if res, evalErr := v.exprEval.Eval(expr, ctx.stack.EnvMap()); evalErr == nil {
+					val = res
+				}
 			}
 		}
 
